@@ -130,6 +130,9 @@ func (c *Cluster) genesis() {
 		n := c.addIdentity()
 		n.storeKind = cfg.Stores[i]
 		n.cacheSize = cfg.CacheSize
+		if n.storeKind == "badger" && cfg.BadgerCache > 0 {
+			n.cacheSize = cfg.BadgerCache
+		}
 	}
 	ps := []*SimNode{}
 	for _, n := range c.nodes {
@@ -370,7 +373,11 @@ func (c *Cluster) runOracles(final bool) {
 // undetermined set; consensus passes are quadratic in it).
 func (c *Cluster) tooBig() bool {
 	for _, n := range c.nodes {
-		if n.running() && len(n.core().Hashgraph().UndeterminedEvents) > 1200 {
+		if !n.running() {
+			continue
+		}
+		und := len(n.core().Hashgraph().UndeterminedEvents)
+		if und > 1200 || (n.cacheSize < 1000 && und > n.cacheSize/2) {
 			return true
 		}
 	}
